@@ -95,7 +95,7 @@ def evaluator(ctx, rel, disk, root, made):
     ts = TenSym({}, funcs=funcs, models={"in_units_of": in_units_of, "open_maybe_zipped": disk.opener, "open": disk.opener, "Trajectory": mktraj,
                                         "_parse_topology": lambda ev, c: ev.ex(c.args[0]), "cast_indices": lambda ev, c: ev.ex(c.args[0]),
                                         "ensure_type": lambda ev, c: ev.ex(c.args[0]), "str": lambda ev, c: "S", "warnings.warn": lambda ev, c: None,
-                                        "os.path.exists": lambda ev, c: disk.exists(ev.ex(c.args[0])), "md.Topology": mktop, "Topology": mktop}, parent=root)
+                                        "os.path.exists": lambda ev, c: disk.exists(ev.ex(c.args[0])), "os.path.expanduser": lambda ev, c: ev.ex(c.args[0]), "os.fspath": lambda ev, c: ev.ex(c.args[0]), "os.path.abspath": lambda ev, c: ev.ex(c.args[0]), "md.Topology": mktop, "Topology": mktop}, parent=root)
     if rel == W.PDB:
         # the PDB reader builds a PdbStructure (classes of pdbstructure.py, nested ones included) and writes with print(..., file=)
         smod = ctx.py.mod(W.PDBS)
@@ -117,7 +117,7 @@ def evaluator(ctx, rel, disk, root, made):
     ts.classes = classes
     ts.assume = W.assume
     ts.module_env = {"Trajectory": Obj(_distance_unit="nanometers"), "mdtraj": Obj(__version__="V", version=Obj(version="V")), "date": Obj(today=lambda: "D"),
-                     "os": Obj(PathLike="PathLike", path=Obj(exists=lambda p: disk.exists(p))),
+                     "os": Obj(PathLike="PathLike", fspath=lambda p: p, path=Obj(exists=lambda p: disk.exists(p), expanduser=lambda p: p, abspath=lambda p: p, realpath=lambda p: p, normpath=lambda p: p)),
                      "pdb": Obj(PDBTrajectoryFile=Obj(_residueNameReplacements={}, _atomNameReplacements={}, _loadNameReplacementTables=lambda: None)),
                      "elem": Obj(get_by_symbol=lambda s_: Obj(tag="element", symbol=s_), virtual=Obj(tag="element", symbol="VS"))}
     if rel == W.PDB:
